@@ -313,3 +313,74 @@ def delete_in_active_flag(crate):
 
     _check_paths(ex, res, outs, per_path)
     return P.finish(ex, res, ["only-if-presented delete without an active blob", "plain delete into the active blob", "active blob's delete failed"])
+
+
+def delete_entry_glue(crate):
+    """C02: Storage::delete_with_optional_meta (behind delete / delete_with): exactly one delete_core runs, with the
+    caller's timestamp and only_if_presented flag; an unconditional delete (flag false) on a storage without an active blob
+    first makes sure one exists (its failure fails the call) so the marker has a place to go; the result is delete_core's."""
+    res = P.ObResult("delete_entry_glue")
+    fn = crate.method("Storage", "delete_with_optional_meta")
+    res.functions = ["Storage::delete_with_optional_meta (async body)"]
+    res.bounds = "one call, active blob present or not, either flag, every outcome of the callees"
+    ex = P.mk_executor(crate, cap=2, loop_bound=3, inline=[], havoc=[r"^<impl AsRef<K> as AsRef<K>>::as_ref$", r"^<impl AsRef as AsRef<K>>::as_ref$"])
+    st = State()
+    sc = st.new_cell(Obj("storage::core::Storage<K>"))
+    oip = z3.Bool("only_if_presented")
+    tsv = z3.BitVec("delete_timestamp", 64)
+    ts = Obj("storage::core::BlobRecordTimestamp"); ts.fields[(None, 0)] = Sym(tsv, "u64")
+    ai = crate.field_index("Safe", "active_blob")
+
+    def hook(ex_, st_, name, fargs, out_ty, dty):
+        if name.endswith("delete_core") or name.endswith("ensure_active_blob_exists"):
+            r = ex_.fresh(out_ty, st_, "r")
+            probe = None
+            if name.endswith("delete_core"):
+                safe = S.deref_val(ex_, st_, fargs[1])
+                ab = safe.fields.get((None, ai)) if isinstance(safe, Obj) else None
+                probe = ex_.get_discr(st_, ab).t if isinstance(ab, Obj) else None
+            st_.events.append(("await", name, fargs + [probe], r))
+            return [(S.poll_ready(dty, r), None)]
+        return None
+    ex.await_hook = hook
+    outs = P.drive_async(ex, st, fn, [Ref(sc, (), False, "&storage::core::Storage<K>"), Obj("impl AsRef<K>"), ts, Obj("std::option::Option<record::record::Meta>"), Sym(oip, "bool")])
+    res.paths = len(outs)
+
+    def per_path(o, isok, payload):
+        evs = P.events_of(o)
+        cores = [e for e in evs if e[1].endswith("delete_core")]
+        ens = [e for e in evs if e[1].endswith("ensure_active_blob_exists")]
+        if len(cores) > 1:
+            res.status = "violated"; res.detail = "delete_core runs %d times for one delete" % len(cores); return False
+        if not cores:
+            if not P.prove(ex, res, o, z3.Not(isok), "Ok => delete_core ran"):
+                return False
+            if len(ens) != 1 or not P.prove(ex, res, o, ex.get_discr(o, ens[0][3]).t == BV64(1), "delete_core skipped only because creating the active blob failed"):
+                if res.status == "holds":
+                    res.status = "violated"; res.detail = "delete returns without delete_core and without a failed callee"
+                return False
+            P.cover(ex, res, o, z3.Not(isok), "active blob could not be created")
+            return True
+        c = cores[0]
+        a = c[2]
+        tsa = a[3].fields.get((None, 0)) if isinstance(a[3], Obj) else None
+        if tsa is None or not P.prove(ex, res, o, z3.And(tsa.t == tsv, a[5].t == oip), "delete_core gets the caller's timestamp and flag"):
+            if res.status == "holds":
+                res.status = "violated"; res.detail = "delete_core does not get the caller's timestamp"
+            return False
+        if not P.prove(ex, res, o, isok == (ex.get_discr(o, c[3]).t == BV64(0)), "the result is delete_core's"):
+            return False
+        has_active = a[-1]
+        if has_active is not None and not ens:
+            if not P.prove(ex, res, o, z3.Or(oip, has_active == BV64(1)), "unconditional delete without an active blob: one is created first"):
+                return False
+        if ens:
+            if evs.index(ens[0]) > evs.index(c):
+                res.status = "violated"; res.detail = "active blob ensured after delete_core"; return False
+            if not P.prove(ex, res, o, z3.Not(oip), "the active blob is created only for an unconditional delete"):
+                return False
+            P.cover(ex, res, o, isok, "active blob created, then deleted")
+        P.cover(ex, res, o, z3.And(isok, oip), "conditional delete")
+        return True
+    _check_paths(ex, res, outs, per_path)
+    return P.finish(ex, res, ["active blob could not be created", "active blob created, then deleted", "conditional delete"])
